@@ -1,7 +1,194 @@
-(* C11 -- property theorems (placeholder while the proofs are being written). *)
-From Clip Require Import base.Geom base.FloatModel model.Scale model.ErrorModel.
+(* C11 -- execution always succeeds on valid input and invalid arguments are reported.
+   Model: model/ErrorModel.v ([exc] = true: C++ exceptions enabled; false: -fno-exceptions).
+   Outcomes: Ok v | Thrown code | Code code v; values: VEmpty | VInput | VCall (the 64-bit call made) | VUndef (UB).
+   The success clause for all inputs is the sweep model's (C01/C10); here only Execute's NoClip prologue.
+   _refuted theorems state that the property's claim is FALSE of the faithful model; their witnesses are replayed on the
+   real code by checks/C11.py (grid cells of the same entry point). *)
+From Coq Require Import ZArith Floats List.
+From Clip Require Import base.Geom.
+From Clip Require Import base.FloatModel.
+From Clip Require Import model.Scale.
+From Clip Require Import model.ErrorModel.
+From Clip Require Import proofs.ScaleProofs.
+From Clip Require Import proofs.ErrorModelProofs.
+Import ListNotations.
 Local Open Scope Z_scope.
 
-Theorem C11_cpr_example : check_precision_range true 9 0 = Throw 1 1.
-Proof. reflexivity. Qed.
-Print Assumptions C11_cpr_example.
+Theorem C11_noclip_empty : forall sweep fr inputs, execute sweep 0 fr inputs = (true, ([], [])).
+Proof. exact execute_noclip. Qed.
+Print Assumptions C11_noclip_empty.
+
+(* CheckPrecisionRange itself *)
+Theorem C11_check_precision_range : forall p ec,
+  (- 8 <= p <= 8 -> forall exc, check_precision_range exc p ec = Val (p, ec)) /\
+  (~ (- 8 <= p <= 8) -> check_precision_range true p ec = Throw 1 (Z.lor ec 1) /\
+                        check_precision_range false p ec = Val (if 0 <? p then 8 else - 8, Z.lor ec 1) /\
+                        Z.testbit (Z.lor ec 1) 0 = true).
+Proof.
+  intros p ec. split.
+  - intros H exc. exact (cpr_valid exc p ec H).
+  - intros H. split; [exact (cpr_invalid_on p ec H)|]. split; [exact (cpr_invalid_off p ec H)|exact (lor1_bit0 ec)].
+Qed.
+Print Assumptions C11_check_precision_range.
+
+(* precision outside +-8 is reported by: BooleanOp/Intersect/Union/Difference/Xor(PathsD) (+ tree), Union(subjects),
+   InflatePaths(PathsD) [delta <> 0 when exceptions are disabled], RectClip/RectClipLines(PathsD) [non-empty rectangle
+   and paths], TrimCollinear(PathD), and -- with exceptions -- the ClipperD constructor. *)
+Theorem C11_precision_reported : forall pow10 p, ~ (- 8 <= p <= 8) ->
+  (forall S C, to_outcome (booleanopD true pow10 p S C) = Thrown 1 /\ to_outcome (booleanopD false pow10 p S C) = Code 1 VEmpty) /\
+  (forall S, to_outcome (union1D true pow10 p S) = Thrown 1 /\ to_outcome (union1D false pow10 p S) = Code 1 VEmpty) /\
+  (forall ps d a, to_outcome (inflateD true pow10 p ps d a) = Thrown 1 /\
+                  (feqb d 0 = false -> to_outcome (inflateD false pow10 p ps d a) = Code 1 VEmpty)) /\
+  (forall r ps, rect_is_empty r = false -> ps <> [] ->
+                to_outcome (rectclipD true pow10 p r ps) = Thrown 1 /\ to_outcome (rectclipD false pow10 p r ps) = Code 1 VEmpty) /\
+  (forall pth, to_outcome (trimcollinearD true pow10 p pth) = Thrown 1 /\ to_outcome (trimcollinearD false pow10 p pth) = Code 1 VEmpty) /\
+  (forall aS aO aC S O C, to_outcome (clipperD_run true pow10 p aS aO aC S O C) = Thrown 1) /\
+  Z.testbit 1 0 = true.
+Proof.
+  intros pow10 p H.
+  split. { intros S C. split; [exact (booleanopD_precision_on pow10 p S C H)|exact (booleanopD_precision_off pow10 p S C H)]. }
+  split. { intros S. split; [exact (union1D_precision_on pow10 p S H)|exact (union1D_precision_off pow10 p S H)]. }
+  split. { intros ps d a. split; [exact (inflateD_precision_on pow10 p ps d a H)|intros Hd; exact (inflateD_precision_off pow10 p ps d a H Hd)]. }
+  split. { intros r ps Hr Hne. split; [exact (rectclipD_precision_on pow10 p r ps H Hr Hne)|exact (rectclipD_precision_off pow10 p r ps H Hr Hne)]. }
+  split. { intros pth. split; [exact (trimcollinearD_precision_on pow10 p pth H)|exact (trimcollinearD_precision_off pow10 p pth H)]. }
+  split. { intros aS aO aC S O C. exact (clipperD_precision_on pow10 p aS aO aC S O C H). }
+  reflexivity.
+Qed.
+Print Assumptions C11_precision_reported.
+
+(* ... and silently accepted by: *)
+Theorem C11_precision_minkowski_refuted :
+  ~ (- 8 <= 12 <= 8) /\ forall exc, is_call (to_outcome (minkowskiD exc pow10_spec 12 tri sq)) = true.
+Proof. exact minkowskiD_precision_ignored. Qed.
+Print Assumptions C11_precision_minkowski_refuted.
+
+Theorem C11_precision_inflate_delta0_refuted :
+  ~ (- 8 <= 12 <= 8) /\ to_outcome (inflateD false pow10_spec 12 [sq] 0 0) = Code 1 VInput.
+Proof. exact inflateD_delta0_noexc. Qed.
+Print Assumptions C11_precision_inflate_delta0_refuted.
+
+Theorem C11_precision_clipperD_noexc_refuted :
+  ~ (- 8 <= 12 <= 8) /\
+  exists c, to_outcome (clipperD_run false pow10_spec 12 true true true [sq] [] []) = Code 1 (VCall c) /\ c_paths c <> [[]; []; []].
+Proof. exact clipperD_precision_noexc. Qed.
+Print Assumptions C11_precision_clipperD_noexc_refuted.
+
+Theorem C11_precision_rectclip_empty_refuted :
+  ~ (- 8 <= 12 <= 8) /\ to_outcome (rectclipD true pow10_spec 12 (0%float, 0%float, 0%float, 5%float) [sq]) = Ok VEmpty.
+Proof. exact rectclipD_empty_before_precision. Qed.
+Print Assumptions C11_precision_rectclip_empty_refuted.
+
+(* coordinates failing ScalePaths' range test are reported by ScalePaths itself and by the wrappers that look at the code *)
+Theorem C11_range_reported : forall pow10 p, - 8 <= p <= 8 ->
+  (forall sx sy ps ec, range_ok sx sy ps = false ->
+     scale_paths_E true sx sy ps ec = Throw 64 (Z.lor ec 64) /\ scale_paths_E false sx sy ps ec = Val (Some [], Z.lor ec 64)) /\
+  (forall ps d a, feqb d 0 = false -> range_ok (pow10 p) (pow10 p) ps = false ->
+     to_outcome (inflateD true pow10 p ps d a) = Thrown 64 /\ to_outcome (inflateD false pow10 p ps d a) = Code 64 VEmpty) /\
+  (forall r r64 ps, rect_is_empty r = false -> ps <> [] -> scale_rect (pow10 p) r = Some r64 ->
+     range_ok (pow10 p) (pow10 p) ps = false ->
+     to_outcome (rectclipD true pow10 p r ps) = Thrown 64 /\ to_outcome (rectclipD false pow10 p r ps) = Code 64 VEmpty) /\
+  (forall S O C, range_ok (scaleD_model pow10 p) (scaleD_model pow10 p) S = false ->
+     to_outcome (clipperD_run true pow10 p true true true S O C) = Thrown 64) /\
+  (forall S C, range_ok (scaleD_model pow10 p) (scaleD_model pow10 p) S = false ->
+     to_outcome (booleanopD true pow10 p S C) = Thrown 64).
+Proof.
+  intros pow10 p Hp.
+  split. { intros sx sy ps ec H. split; [exact (scale_paths_range_on sx sy ps ec H)|exact (scale_paths_range_off sx sy ps ec H)]. }
+  split. { intros ps d a Hd Hr. exact (inflateD_range pow10 p ps d a Hp Hd Hr). }
+  split. { intros r r64 ps Hre Hne Hr64 Hr. exact (rectclipD_range pow10 p r r64 ps Hp Hre Hne Hr64 Hr). }
+  split. { intros S O C Hr. exact (clipperD_range_on pow10 p S O C Hp Hr). }
+  intros S C Hr. exact (booleanopD_range_on pow10 p S C Hp Hr).
+Qed.
+Print Assumptions C11_range_reported.
+
+(* exceptions disabled: BooleanOp(PathsD) and ClipperD drop the oversized set and return a result for the rest *)
+Theorem C11_range_booleanop_noexc_refuted :
+  range_ok (scaleD_spec 2) (scaleD_spec 2) [huge_sq] = false /\
+  exists c, to_outcome (booleanopD false pow10_spec 2 [huge_sq] [sq]) = Ok (VCall c) /\ nth 0 (c_paths c) [] = [].
+Proof. exact booleanopD_range_noexc. Qed.
+Print Assumptions C11_range_booleanop_noexc_refuted.
+
+Theorem C11_range_clipperD_noexc_refuted :
+  exists c, to_outcome (clipperD_run false pow10_spec 2 true true true [huge_sq] [] [sq]) = Code 64 (VCall c) /\ nth 2 (c_paths c) [] <> [].
+Proof. exact clipperD_range_noexc. Qed.
+Print Assumptions C11_range_clipperD_noexc_refuted.
+
+(* NaN passes ScalePaths' range test (undefined conversion, nothing reported), in both builds *)
+Theorem C11_range_nan_refuted :
+  (forall exc, scale_paths_E exc 100 100 [nan_sq] 0 = Val (None, 0)) /\
+  (forall exc, to_outcome (booleanopD exc pow10_spec 2 [nan_sq] [sq]) = Ok VUndef).
+Proof. split; [exact scale_paths_nan_unchecked|exact booleanopD_nan_unchecked]. Qed.
+Print Assumptions C11_range_nan_refuted.
+
+(* ScalePath has no range test: TrimCollinear(PathD), MinkowskiSum/Diff(PathD); ScaleRect neither; nor the C exports *)
+Theorem C11_range_scalepath_refuted :
+  (forall exc, scale_path_E exc 100 100 huge_sq 0 = Val (None, 0)) /\
+  (forall exc, to_outcome (trimcollinearD exc pow10_spec 2 huge_sq) = Ok VUndef /\
+               is_call (to_outcome (trimcollinearD exc pow10_spec 2 big_sq)) = true /\
+               in_coord_range (pow10_spec 2) [big_sq] = false) /\
+  (forall exc, to_outcome (minkowskiD exc pow10_spec 2 tri huge_sq) = Ok VUndef /\
+               is_call (to_outcome (minkowskiD exc pow10_spec 2 tri big_sq)) = true) /\
+  (forall exc, to_outcome (rectclipD exc pow10_spec 2 (0%float, 0%float, 0x1p+300%float, 5%float) [sq]) = Ok VUndef) /\
+  export_inflateD pow10_spec 2 [huge_sq] 1 0 = inl (Val (0, VUndef)).
+Proof.
+  split; [exact scale_path_range_unchecked|]. split; [exact trimcollinearD_range_unchecked|].
+  split; [exact minkowskiD_range_unchecked|]. split; [exact rectclipD_rect_unchecked|exact export_inflateD_range_unchecked].
+Qed.
+Print Assumptions C11_range_scalepath_refuted.
+
+(* zero scale: reported with exceptions ... *)
+Theorem C11_zero_scale : forall sx sy, feqb sx 0 || feqb sy 0 = true ->
+  (forall p ec, scale_path_E true sx sy p ec = Throw 2 (Z.lor ec 2)) /\
+  (forall p ec, descale_path_E true sx sy p ec = Throw 2 (Z.lor ec 2)) /\
+  (forall p, polypathD_child true 0 p = Throw 2 2).
+Proof.
+  intros sx sy H. split; [intros p ec; exact (scale_path_zero_on sx sy p ec H)|].
+  split; [intros p ec; exact (descale_path_zero_on sx sy p ec H)|exact polypathD_zero_on].
+Qed.
+Print Assumptions C11_zero_scale.
+
+(* ... without exceptions the path is scaled by 1 and returned (bit 1 set); PolyPathD loses even the bit *)
+Theorem C11_zero_scale_noexc_refuted :
+  scale_path_E false 0 0 [(1.5%float, 2%float)] 0 = Val (Some [(2, 2)], 2) /\
+  polypathD_child false 0 [(3, 4)] = Val (0, [(3%float, 4%float)]).
+Proof. split; [exact scale_path_zero_off|exact polypathD_zero_off]. Qed.
+Print Assumptions C11_zero_scale_noexc_refuted.
+
+(* odd number of coordinates *)
+Theorem C11_odd_count : forall vals,
+  (Z.odd (Z.of_nat (length vals)) = true -> make_path true vals = Throw 4 0) /\
+  (Z.odd (Z.of_nat (length vals)) = false -> forall exc, exists p, make_path exc vals = Val p).
+Proof.
+  intros vals. split; [exact (make_path_odd_on vals)|]. intros H exc. exact (make_path_even_ok exc vals H).
+Qed.
+Print Assumptions C11_odd_count.
+
+Theorem C11_odd_count_noexc_refuted : make_path false [1; 2; 3] = Val [(1, 2)].
+Proof. exact make_path_odd_off. Qed.
+Print Assumptions C11_odd_count_noexc_refuted.
+
+(* the C boundary: negative return <-> some argument out of range, precision first, then clip type, then fill rule;
+   for every integer value (uint8_t / int included) *)
+Theorem C11_export_rejects : forall ct fr p,
+  ((exists rc, export_booleanopD_pre ct fr p = Some rc /\ rc < 0) <-> (ct > 4 \/ fr > 3 \/ ~ (- 8 <= p <= 8))) /\
+  (~ (- 8 <= p <= 8) -> export_booleanopD_pre ct fr p = Some (- 5)) /\
+  (- 8 <= p <= 8 -> ct > 4 -> export_booleanopD_pre ct fr p = Some (- 4)) /\
+  (- 8 <= p <= 8 -> ct <= 4 -> fr > 3 -> export_booleanopD_pre ct fr p = Some (- 3)) /\
+  (- 8 <= p <= 8 -> ct <= 4 -> fr <= 3 -> export_booleanopD_pre ct fr p = None) /\
+  ((exists rc, export_booleanop64_pre ct fr = Some rc /\ rc < 0) <-> (ct > 4 \/ fr > 3)) /\
+  (ct > 4 -> export_booleanop64_pre ct fr = Some (- 4)) /\
+  (ct <= 4 -> fr > 3 -> export_booleanop64_pre ct fr = Some (- 3)) /\
+  (ct <= 4 -> fr <= 3 -> export_booleanop64_pre ct fr = None) /\
+  (forall r, ~ (- 8 <= p <= 8) -> export_inflateD_pre p false = true /\ export_rectD_pre r false p = true) /\
+  (- 8 <= p <= 8 -> export_inflateD_pre p false = false).
+Proof.
+  intros ct fr p.
+  split; [exact (export_booleanopD_rejects ct fr p)|].
+  destruct (export_booleanopD_priority ct fr p) as [A [B [C D]]].
+  split; [exact A|]. split; [exact B|]. split; [exact C|]. split; [exact D|].
+  split; [exact (export_booleanop64_rejects ct fr)|].
+  destruct (export_booleanop64_priority ct fr) as [E [F G]].
+  split; [exact E|]. split; [exact F|]. split; [exact G|].
+  split; [intros r; exact (proj1 (export_pointer_rejects p r))|exact (proj2 (export_pointer_rejects p (0%float, 0%float, 0%float, 0%float)))].
+Qed.
+Print Assumptions C11_export_rejects.
